@@ -86,6 +86,8 @@ theorem for2_eq (b : Bool) (bits : List Bool) (hcl : ClosuresOk b bits isMatch c
     have hi8 : i < 8 := by omega
     have hbit := bit_small i hi8
     have his := hcl.is B i hi8
+    have his' : isMatch ((1 <<< i) &&& blockByte bits B) = decide ((getBlock bits B).getD i false = b) := by
+      rw [Nat.and_comm]; exact his
     have hx : (if (getBlock bits B).getD i false = b then 1 else 0) ≤ 1 := by split <;> omega
     generalize hxd : (if (getBlock bits B).getD i false = b then 1 else 0) = x at hx
     have e1 : Rs.add 64 rank x = Res.ok (rank + x) := Rs.add_ok (by omega)
@@ -109,12 +111,12 @@ theorem for2_eq (b : Bool) (bits : List Bool) (hcl : ClosuresOk b bits isMatch c
       by_cases hj : rank + x = j
       · have hj' : (rank + x == j) = true := by simp [hj]
         have hj'' : (j == rank + x) = true := by simp [hj]
-        simp only [Gen.SrcRankSelect.selectX_for2, his, decide_eq_true_eq, hxd, e1, e1', e2, e2', e3, e3', hj, hj', hj'',
+        simp only [Gen.SrcRankSelect.selectX_for2, his, his', decide_eq_true_eq, hxd, e1, e1', e2, e2', e3, e3', hj, hj', hj'',
           Res.ok_bind, Res.pure_eq_ok, if_true, ite_true, beq_self_eq_true]
       · have hj' : (rank + x == j) = false := by simp [hj]
         have hj'' : (j == rank + x) = false := by simp [hj]; omega
         have hj3 : (rank + x != j) = true := by simp [hj]
-        simp only [Gen.SrcRankSelect.selectX_for2, his, decide_eq_true_eq, hxd, e1, e1', e2, e2', e3, e3', e4, hj, hj', hj'',
+        simp only [Gen.SrcRankSelect.selectX_for2, his, his', decide_eq_true_eq, hxd, e1, e1', e2, e2', e3, e3', e4, hj, hj', hj'',
           hj3, Res.ok_bind, Res.pure_eq_ok, if_false, ite_false, Bool.false_eq_true, if_true, ite_true]
     rw [List.range'_succ, hbit, hsrc, hsc]
     have hih := ih (i + 1) (rank + x) (by omega) (by omega)
